@@ -265,6 +265,44 @@ func faultedStreams(base []byte, rng *splitmix, maxExhaustive int, samples int, 
 			return
 		}
 	}
+	// sizes: one line (text, comment or command) of several KB, its length near a power of two or far
+	// beyond, and an input of thousands of lines. Whether the result is valid is the verdict's call.
+	if i := strings.Index(string(base), "---\n"); i >= 0 && samples > 0 {
+		at := i + 4
+		target := []int{4096, 8192, 16384, 65536}[rng.intn(4)] + rng.intn(17) - 8
+		if rng.chance(25) {
+			target = 3000 + rng.intn(70000)
+		}
+		open, closing := []string{"PAD", "// pad", "<<c0 pad", "PAD {1} #tag"}[rng.intn(4)], ""
+		if strings.HasPrefix(open, "<<") {
+			closing = ">>"
+		}
+		var sb strings.Builder
+		sb.WriteString(open)
+		words := []string{" x", " hello", " é", " 日本", " 12", " a-b"}
+		for sb.Len() < target-8 {
+			sb.WriteString(words[rng.intn(len(words))])
+		}
+		for sb.Len()+len(closing) < target {
+			sb.WriteString("y")
+		}
+		sb.WriteString(closing + "\n")
+		b := append(append(append([]byte{}, base[:at]...), sb.String()...), base[at:]...)
+		if !emit(streamCase{Kind: "long_line", Readers: oneReader(b), Seed: "a1", At: target}) {
+			return
+		}
+		if rng.chance(25) {
+			nl := 500 + rng.intn(4000)
+			var mb strings.Builder
+			for k := 0; k < nl; k++ {
+				fmt.Fprintf(&mb, "PAD %d\n", k)
+			}
+			b := append(append(append([]byte{}, base[:at]...), mb.String()...), base[at:]...)
+			if !emit(streamCase{Kind: "many_lines", Readers: oneReader(b), Seed: "a1", At: nl}) {
+				return
+			}
+		}
+	}
 	emit(streamCase{Kind: "empty", Readers: oneReader(nil), Seed: "a1"})
 	return exhaustive
 }
